@@ -217,6 +217,48 @@ def leaf_case(ctx, rng, idx):
                           {'case': feats, 'call': 'individual_parameters'},
                           feats)
 
+    # ---------------- the flat eta layout needs no configured number of
+    # individuals (these models are defined for any number of rows), and a
+    # reduced model whose fixed parameters form whole rows takes the rest
+    # in the matrix layout in every method
+    if kind in 'GLT' and not tail:
+        try:
+            fresh = GP.build_chi_leaf(leaf, 1)
+            psi_f = np.asarray(fresh.compute_individual_parameters(
+                arr, obs.flatten()), dtype=float)
+            ctx.count('flat_eta_without_set_n_ids')
+            if psi_f.shape != (n_ids, n_dim) or not ctx.close(
+                    psi_f, np.real(_psi(leaf, th.astype(complex), obs,
+                                        n_ids)), rtol=1e-12):
+                ctx.violation('individual_parameter_transform',
+                              'psi_mismatch_flat_eta_unconfigured:' +
+                              code.rstrip('0123456789'),
+                              {'chi': psi_f}, feats)
+            red = chi.ReducedPopulationModel(GP.build_chi_leaf(leaf, 1))
+            nm = red.get_parameter_names()
+            red.fix_parameters({nm[n_dim + j]: float(theta[n_dim + j])
+                                for j in range(n_dim)})
+            if layout != 'flat':
+                raise StopIteration     # shared parameters only
+            mat = theta[:n_dim].reshape(1, n_dim).copy()
+            v_m = red.compute_log_likelihood(mat, obs.copy())
+            psi_m = np.asarray(red.compute_individual_parameters(
+                mat, obs.copy()), dtype=float)
+            ctx.count('reduced_matrix_layout_calls')
+            if not ctx.close(v_m, ref, rtol=1e-10, scale=sc) or \
+                    not ctx.close(psi_m, np.real(_psi(
+                        leaf, th.astype(complex), obs, n_ids)), rtol=1e-12):
+                ctx.violation('layout_invariance',
+                              'reduced_matrix_layout:' +
+                              code.rstrip('0123456789'),
+                              {'value': v_m, 'reference': ref}, feats)
+        except StopIteration:
+            pass
+        except Exception as e:      # noqa
+            ctx.violation_exc('evaluation_raises', e,
+                              {'case': feats,
+                               'call': 'flat eta / reduced matrix layout'},
+                              feats)
     # ---------------- sensitivities, three forms
     terms = _F(leaf, n_ids, c)
 
@@ -616,17 +658,22 @@ def forms_case(ctx, rng, idx):
     model = GP.build_chi_leaf(leaf, n_ids)
     model.set_n_ids(n_ids)
     # (population models document np.ndarray inputs: array forms only)
-    form = FM.pick(rng, ['readonly', 'strided', 'fortran', 'int64', 'int32'])
+    form = FM.pick(rng, ['readonly', 'strided', 'fortran', 'int64', 'int32',
+                         'float32'])
     theta = GP.leaf_top(rng, leaf, n_ids)
     is_int = form in ('int64', 'int32')
     if is_int:
         theta = FM.intify(4 * theta)
         theta[n_dim:2 * n_dim] = np.abs(theta[n_dim:2 * n_dim]) \
             if kind in 'GLT' else theta[n_dim:2 * n_dim]
+    if form == 'float32':
+        theta = FM.round32(theta)
     arr, th = _layout(theta, leaf, n_ids, layout, rng)
     obs = _obs(rng, leaf, th, n_ids)
     if is_int and kind in 'GLT':
         obs = FM.intify(4 * obs)
+    if form == 'float32' and kind in 'GLT':
+        obs = FM.round32(obs)
     av, ov = FM.variant(arr, form), FM.variant(obs, form)
     if av is None or ov is None:
         ctx.reject('form not applicable')
